@@ -343,7 +343,12 @@ def build_call(call):
                     plist.append(CIMParameter(pname, t, value=pv,
                                               is_array=is_arr,
                                               embedded_object=emb))
-            kwargs['Params'] = plist
+            # Params is documented as an iterable: every third parameter list
+            # (decided by the recipe) is handed over as a one-shot iterator
+            if plist and sum(len(x[1]) for x in v) % 3 == 0:
+                kwargs['Params'] = iter(plist)
+            else:
+                kwargs['Params'] = plist
             continue
         kwargs[name] = build_arg(name, v)
     for pname, tv in a.get('kwparams', []):
